@@ -64,6 +64,7 @@ fixed("C06","C06/sequence/include-line-produced-by-generate-uses-the-include-FS"
 # ---- C07
 fixed("C07","C07/error-line-out-of-range/mutation","de58904","a zone text ending right after a $GENERATE range ('$GENERATE 13-17<EOF>') was reported as 'garbage after $GENERATE range: \"\" at line: 0:0': the end-of-input token carries no position")
 fixed("C07","C07/syntax-error-not-reported/unbalanced-parenthesis/CSYNC","cdc71f1","an unbalanced parenthesis inside the RDATA of NSEC, NSEC3, NXT, CSYNC, LOC, HIP, APL, SVCB/HTTPS or NSEC3PARAM was swallowed: the record was returned, every later entry silently dropped and Err() stayed nil (those RDATA loops ignore the lexer's error flag)")
+fixed("C07","C07/syntax-error-not-reported/ttl-out-of-range","caf99ce","a TTL written with so many digits that the 64-bit accumulator wraps (18446744073709551617) was accepted as a small TTL (1) in records, $TTL and $GENERATE templates instead of being reported (noticed by a round-5 sub-agent while preparing a different change)")
 # ---- C11
 fixed("C11","C11/accepts-altered/field/fudge-zero","a6d820e","TsigVerify substituted the default fudge 300 (and the current time) for a zero fudge / time signed found in the received TSIG, so a message whose fudge was changed from 300 to 0 still verified")
 # ---- C13
